@@ -13,7 +13,8 @@
 #include <unistd.h>
 
 static int T = -1, nitems_max, thin, e2e, cur_limit;
-static int FT = -1, devnull = -1;
+static int FT = -1, devnull = -1, T2 = -1, t2_calls;
+static size_t e2e_plain_len = (size_t)-1; static const char *e2e_msg;
 static void check_blackbox_last(const char *want);
 static const int LIMITS[] = { 512, 32, 4, 3, 2, 1, 0, -1, 513, 4096, 4097 };
 #define NLIM 11
@@ -91,7 +92,15 @@ static void captured_logger(int32_t t, struct qb_log_callsite *cs, struct timesp
 {
 	/* end-to-end: the message handed to a target must be a terminated string within the limit */
 	size_t n = strnlen(msg, 5000);
-	(void)t; (void)cs; (void)ts;
+	(void)cs; (void)ts;
+	if (t == T2) {
+		/* a target with extended information switched off gets the text in front of the marker, whatever targets in lower slots did with it */
+		size_t want = e2e_plain_len < 511 ? e2e_plain_len : 511;
+		t2_calls++;
+		if (e2e_plain_len != (size_t)-1 && (n < want || memcmp(msg, e2e_msg, want) || (e2e_plain_len < 511 && n != want)))
+			vp_fail("the target without extended information got '%.40s%s' (%zu characters), the text in front of the marker has %zu", msg, n > 40 ? "..." : "", n, e2e_plain_len);
+		return;
+	}
 	if (n >= (size_t)(cur_limit > 512 ? cur_limit : 512)) vp_fail("message handed to the target has %zu characters, the largest limit of an enabled target is %d", n, cur_limit > 512 ? cur_limit : 512);
 	vp_outcome(&n, sizeof n);
 }
@@ -144,13 +153,17 @@ static void run(void)
 		size_t n, k;
 		{ char *exact = strdup(fmt); qb_log_format_set(T, exact); free(exact); }   /* exact-size heap copy: over-reads are seen */
 		memset(&cs, 0, sizeof cs);
-		cs.function = "my_function"; cs.filename = "dir/my_file.c"; cs.format = "%s"; cs.priority = LOG_INFO; cs.lineno = 4242; cs.tags = 7;
+		/* call-site data: priorities up to the last named one, the first one beyond the table, and the largest value */
+		static const uint8_t PRIOS[] = { LOG_INFO, LOG_TRACE, LOG_TRACE + 1, 255 };
+		uint8_t prio = LOG_INFO;
+		{ const char *q; for (q = fmt; (q = strchr(q, '%')) != NULL; q++) { const char *e = q + 1; while (*e == '-' || (*e >= '0' && *e <= '9')) e++; if (*e == 'p') { prio = PRIOS[vp_choose(4, "call-site priority")]; break; } } }
+		cs.function = "my_function"; cs.filename = "dir/my_file.c"; cs.format = "%s"; cs.priority = prio; cs.lineno = 4242; cs.tags = 7;
 		out = exact_buf((size_t)L);
 		qb_log_target_format(T, &cs, &ts, msg, out);
 		/* NUL within the limit */
 		n = strnlen(out, (size_t)L);
 		if (n >= (size_t)L) vp_fail("formatted line is not NUL-terminated within max_line_length %d", L);
-		judge = reference(ref, sizeof ref, msg, 4242, LOG_INFO, &ts, &has_ralign);
+		judge = reference(ref, sizeof ref, msg, 4242, prio, &ts, &has_ralign);
 		if (judge) {
 			size_t rl = strlen(ref);
 			if (rl < (size_t)L) {
@@ -179,7 +192,9 @@ static void run(void)
 	} else {
 		/* end to end: a log call whose printf format expands to the message, through a custom target and a file target */
 		qb_log_format_set(T, fmt);
+		{ const char *m = xc ? strchr(msg, QB_XC) : NULL; size_t pl = m ? (size_t)(m - msg) : mlen; if (!m && nl && pl) pl--; e2e_plain_len = pl; e2e_msg = msg; }
 		qb_log_from_external_source("my_function", "dir/my_file.c", "%s", LOG_INFO, 4242, 0, msg);
+		e2e_plain_len = (size_t)-1;
 		qb_log_from_external_source("my_function", "dir/my_file.c", msg[0] ? "%.0s" : "", LOG_INFO, 4243, 0, "unused");
 		/* a call with several arguments that goes to a text target in a low slot (stderr), to the blackbox and to the custom
 		   target at once: every one of them has to see the same arguments */
@@ -242,6 +257,13 @@ static void setup(void)
 		qb_log_ctl(QB_LOG_BLACKBOX, QB_LOG_CONF_SIZE, 4096);
 		qb_log_filter_ctl(QB_LOG_BLACKBOX, QB_LOG_FILTER_ADD, QB_LOG_FILTER_FILE, "*", LOG_NOTICE);
 		qb_log_ctl(QB_LOG_BLACKBOX, QB_LOG_CONF_ENABLED, QB_TRUE);
+		/* a second custom target, in a higher slot, that does not want extended information; its line is the bare message */
+		T2 = qb_log_custom_open(captured_logger, NULL, NULL, NULL);
+		if (T2 < 0) vp_broken("second custom_open failed");
+		qb_log_filter_ctl(T2, QB_LOG_FILTER_ADD, QB_LOG_FILTER_FILE, "*", LOG_TRACE);
+		qb_log_format_set(T2, "%b");
+		qb_log_ctl(T2, QB_LOG_CONF_EXTENDED, QB_FALSE);
+		qb_log_ctl(T2, QB_LOG_CONF_ENABLED, QB_TRUE);
 		FT = qb_log_file_open("/dev/null");
 		if (FT >= 0) {
 			qb_log_filter_ctl(FT, QB_LOG_FILTER_ADD, QB_LOG_FILTER_FILE, "*", LOG_TRACE);
